@@ -558,6 +558,7 @@ class Inliner:
         self.repo.absorbed = self._absorbed(fis)
         for fi in fis:
             if not fi.module.relpath.startswith("examples/"):
+                self._records(fi)
                 self._assertion_raises(fi)
                 self._private_properties(fi)
                 self._match_to_if(fi)
@@ -692,6 +693,151 @@ class Inliner:
             return out
         fn.body = block(fn.body)
         return changed[0]
+
+    def _record_classes(self, fi) -> Dict[str, List[str]]:
+        rc = getattr(fi.module, "_pwsa_records", None)
+        if rc is None:
+            rc = {}
+            for st in fi.module.tree.body:
+                if isinstance(st, ast.ClassDef) and any((ast.unparse(b).split(".")[-1] == "NamedTuple") for b in st.bases):
+                    fields = [x.target.id for x in st.body if isinstance(x, ast.AnnAssign) and isinstance(x.target, ast.Name)]
+                    if fields and not any(isinstance(x, ast.FunctionDef) for x in st.body):
+                        rc[st.name] = fields
+            try:
+                fi.module._pwsa_records = rc
+            except Exception:
+                pass
+        return rc
+
+    def _records(self, fi) -> None:
+        """a local that only ever holds a module-level NamedTuple built in the function (`r = _Assembly(tensor, order)`) and is only read field by
+        field (`r.tensor`), unpacked (`t, o = r`) or copied is read as one plain local per field (`r__f0`, `r__f1`): the record is immutable, so the
+        snapshot taken at construction is what every later read sees"""
+        rc = self._record_classes(fi)
+        if not rc:
+            return
+        fn = fi.node
+        if not any(isinstance(x, ast.Call) and isinstance(x.func, ast.Name) and x.func.id in rc for x in ast.walk(fn)):
+            return
+        params = {a.arg for a in fn.args.posonlyargs + fn.args.args + fn.args.kwonlyargs}
+        parents: Dict[int, ast.AST] = {}
+        for n in ast.walk(fn):
+            for c in ast.iter_child_nodes(n):
+                parents[id(c)] = n
+
+        def ctor(v):
+            if isinstance(v, ast.Call) and isinstance(v.func, ast.Name) and v.func.id in rc and not any(isinstance(a, ast.Starred) for a in v.args):
+                fields = rc[v.func.id]
+                vals = dict(zip(fields, v.args))
+                for k in v.keywords:
+                    if k.arg is None or k.arg not in fields:
+                        return None
+                    vals[k.arg] = k.value
+                if len(v.args) <= len(fields) and set(vals) == set(fields):
+                    return v.func.id, [vals[f] for f in fields]
+            return None
+        cls_of: Dict[str, str] = {}
+        bad = set()
+        stores = [x for x in ast.walk(fn) if isinstance(x, ast.Name) and isinstance(x.ctx, (ast.Store, ast.Del))]
+        for _ in range(3):
+            for x in stores:
+                if x.id in bad or x.id in params:
+                    bad.add(x.id)
+                    continue
+                par = parents.get(id(x))
+                if isinstance(par, ast.Assign) and len(par.targets) == 1 and par.targets[0] is x:
+                    c = ctor(par.value)
+                    if c is not None:
+                        if cls_of.setdefault(x.id, c[0]) != c[0]:
+                            bad.add(x.id)
+                        continue
+                    if isinstance(par.value, ast.Name) and par.value.id in cls_of and par.value.id not in bad:
+                        if cls_of.setdefault(x.id, cls_of[par.value.id]) != cls_of[par.value.id]:
+                            bad.add(x.id)
+                        continue
+                    if isinstance(par.value, ast.Name):
+                        continue         # decided in a later round (or never: then it is not a record)
+                bad.add(x.id)
+        cands = {n for n in cls_of if n not in bad}
+        # every store classified?
+        for x in stores:
+            if x.id in cands:
+                par = parents.get(id(x))
+                if not (isinstance(par, ast.Assign) and (ctor(par.value) is not None or (isinstance(par.value, ast.Name) and par.value.id in cands))):
+                    cands.discard(x.id)
+        for x in ast.walk(fn):
+            if isinstance(x, ast.Name) and isinstance(x.ctx, ast.Load) and x.id in cands:
+                par = parents.get(id(x))
+                ok_use = False
+                if isinstance(par, ast.Attribute) and par.value is x and isinstance(par.ctx, ast.Load) and par.attr in rc[cls_of[x.id]]:
+                    ok_use = True
+                elif isinstance(par, ast.Assign) and par.value is x and len(par.targets) == 1:
+                    t = par.targets[0]
+                    if isinstance(t, ast.Name) and t.id in cands:
+                        ok_use = True
+                    elif isinstance(t, (ast.Tuple, ast.List)) and len(t.elts) == len(rc[cls_of[x.id]]) and all(isinstance(e, ast.Name) for e in t.elts):
+                        ok_use = True
+                if not ok_use:
+                    cands.discard(x.id)
+        # copies between candidates must stay inside the set
+        for _ in range(3):
+            for x in ast.walk(fn):
+                if isinstance(x, ast.Assign) and len(x.targets) == 1 and isinstance(x.targets[0], ast.Name) and isinstance(x.value, ast.Name):
+                    a_, b_ = x.targets[0].id, x.value.id
+                    if (a_ in cands) != (b_ in cands) and (a_ in cls_of or b_ in cls_of):
+                        cands.discard(a_)
+                        cands.discard(b_)
+        if not cands:
+            return
+        new = copy.deepcopy(fn) if fn is getattr(fi, "orig", None) else fn
+
+        def fname(r, i):
+            return f"{r}__f{i}"
+
+        class _F(ast.NodeTransformer):
+            def visit_Attribute(self, n):
+                self.generic_visit(n)
+                if isinstance(n.ctx, ast.Load) and isinstance(n.value, ast.Name) and n.value.id in cands and n.attr in rc[cls_of[n.value.id]]:
+                    return ast.copy_location(ast.Name(id=fname(n.value.id, rc[cls_of[n.value.id]].index(n.attr)), ctx=ast.Load()), n)
+                return n
+
+        def block(stmts):
+            out = []
+            for st in stmts:
+                for fld in ("body", "orelse", "finalbody"):
+                    sub = getattr(st, fld, None)
+                    if isinstance(sub, list) and sub and isinstance(sub[0], ast.stmt) and not isinstance(st, (ast.FunctionDef, ast.ClassDef)):
+                        setattr(st, fld, block(sub))
+                if isinstance(st, ast.Try):
+                    for h in st.handlers:
+                        h.body = block(h.body)
+                if isinstance(st, ast.Match):
+                    for c in st.cases:
+                        c.body = block(c.body)
+                if isinstance(st, ast.Assign) and len(st.targets) == 1:
+                    t, v = st.targets[0], st.value
+                    if isinstance(t, ast.Name) and t.id in cands:
+                        c = ctor(v)
+                        if c is not None:
+                            # all field values are evaluated before any field local is written (they may read the previous record)
+                            tmp = [ast.copy_location(ast.Assign(targets=[ast.Name(id=fname(t.id, i) + "n", ctx=ast.Store())], value=_F().visit(a)), st) for i, a in enumerate(c[1])]
+                            fin = [ast.copy_location(ast.Assign(targets=[ast.Name(id=fname(t.id, i), ctx=ast.Store())], value=ast.Name(id=fname(t.id, i) + "n", ctx=ast.Load())), st)
+                                   for i in range(len(c[1]))]
+                            simple = all(isinstance(a, ast.Name) and not a.id.startswith(t.id + "__f") for a in c[1])
+                            out += ([ast.copy_location(ast.Assign(targets=[ast.Name(id=fname(t.id, i), ctx=ast.Store())], value=a), st) for i, a in enumerate(c[1])] if simple else tmp + fin)
+                            continue
+                        if isinstance(v, ast.Name) and v.id in cands:
+                            out += [ast.copy_location(ast.Assign(targets=[ast.Name(id=fname(t.id, i), ctx=ast.Store())], value=ast.Name(id=fname(v.id, i), ctx=ast.Load())), st)
+                                    for i in range(len(rc[cls_of[v.id]]))]
+                            continue
+                    if isinstance(t, (ast.Tuple, ast.List)) and isinstance(v, ast.Name) and v.id in cands:
+                        out += [ast.copy_location(ast.Assign(targets=[e], value=ast.Name(id=fname(v.id, i), ctx=ast.Load())), st) for i, e in enumerate(t.elts)]
+                        continue
+                out.append(_F().visit(st))
+            return out
+        new.body = block(new.body)
+        ast.fix_missing_locations(new)
+        fi.node = new
 
     def _private_properties(self, fi) -> None:
         """a private read-only property that only returns an expression over self (`_in_envelope`: `return isinstance(self.index, int)`) is read
